@@ -26,6 +26,7 @@ type workerState struct {
 	hashPath     string
 	evals        int64
 	poisoned     bool
+	recycled     bool
 }
 
 func newWorkerState(hashPath string) *workerState {
@@ -72,6 +73,7 @@ type workerResult struct {
 	Samples      []json.RawMessage   `json:"samples"`
 	Inconclusive []string            `json:"inconclusive"`
 	Poisoned     bool                `json:"poisoned"`
+	Recycled     bool                `json:"recycled"`
 }
 
 // QuietLogs silences the library's loggers (it logs whole buffers on bad input).
@@ -111,7 +113,7 @@ func RunWorker(p *Prop, tier string, seed uint64, start, stride, n int, hashPath
 		w.hashFile.Close()
 	}
 	res := workerResult{Next: next, Ran: ran, Evals: w.evals, Counters: w.counters, Maxes: w.maxes, Sets: map[string][]string{},
-		Viol: w.viol, ViolCount: w.violCount, Samples: w.samples, Inconclusive: w.inconclusive, Poisoned: w.poisoned}
+		Viol: w.viol, ViolCount: w.violCount, Samples: w.samples, Inconclusive: w.inconclusive, Poisoned: w.poisoned, Recycled: w.recycled}
 	for k, s := range w.sets {
 		for m := range s {
 			res.Sets[k] = append(res.Sets[k], m)
